@@ -228,6 +228,7 @@ def execute(workload, chooser, fault=None, line_yield=False):
         if mon:
             mon()
     sch.fault_at = fault_at[0] if fault_at else None
+    sch.target = target
     return sch, log, sem, errors, exc, threads
 
 
@@ -323,6 +324,24 @@ def check_log(ctx, workload, sch, log, sem, errors, exc, threads, fault, detail)
     # run-level calls never inside another task's block
     rl = [x for x in intruders if x[1] in ("startTestRun", "stopTestRun", "stop", "done", "shouldStop-read")]
     ctx.check(not rl, "runlevel.never-inside-a-block", lambda: {"intruders": rl[:5], **detail()})
+    # ---- the faulted thread: tests it reports AFTER the fault are delivered with their own start time ----
+    if faulted_thread is not None and sch.fault_at is not None:
+        t = int(faulted_thread[1:])
+        specs = [op[1] for op in workload[t] if op[0] == "test"]
+        prev_end = None
+        for s in specs:
+            t_start = s["t0"] if s["t0"] is not None else prev_end
+            prev_end = s["t1"]
+            for b in blocks:
+                if b["task"] != faulted_thread or b["test"] != s["id"] or b.get("cut") or b["start"] <= sch.fault_at:
+                    continue
+                names = " ".join(x.name for x in b["events"] if x.thread == b["task"])
+                if not BLOCK.match(names) or t_start is None:
+                    continue
+                times = [x.payload["time"] for x in b["events"] if x.name == "time"]
+                ctx.check(times[:1] == [BASE + datetime.timedelta(seconds=t_start)], "block.own-start-time",
+                          lambda: {"test": s["id"], "after a fault in the same thread": True,
+                                   "times": [repr(x) for x in times], "want start": t_start, **detail()})
     # ---- exactly once, per-thread order, own times, own tags ---------------------------------------
     for t, ops in enumerate(workload):
         if tname(t) == faulted_thread:
@@ -367,6 +386,9 @@ def x_schedule(ctx, case):
     detail = lambda: {"schedule": [k for n, k, c in sch.choices][:80], "fault": fault,  # noqa: E731
                       "trace-tail": sch.trace[-12:]}
     check_log(ctx, workload, sch, log, sem, errors, exc, threads, fault, detail)
+    late = sch.target.aliasing_problems()
+    ctx.check(not late, "block.tags-of-that-test",
+              lambda: {"tag sets handed to the target that changed afterwards (was, is)": late[:4], **detail()})
     if not hasattr(ctx, "interleavings"):
         ctx.interleavings = set()
     ctx.interleavings.add(hash(tuple(sch.trace)))
